@@ -45,9 +45,27 @@ def raw(V, E=None, F=None, C=None, vrows="list", irows="list"):
     return data
 
 
-def surface(V, F, vrows="list", irows="list", E=None):
+def surface(V, F, vrows="list", irows="list", E=None, subclass=False):
     import mouette as M
+    if subclass:
+        # an instance of a user-defined subclass of SurfaceMesh (a documented extension point: the mesh classes are ordinary classes)
+        return _user_surface_class()(raw(V, E=E, F=F, vrows=vrows, irows=irows))
     return M.mesh.SurfaceMesh(raw(V, E=E, F=F, vrows=vrows, irows=irows))
+
+
+_USER_CLASS = []
+
+
+def _user_surface_class():
+    import mouette as M
+    if not _USER_CLASS:
+        class TaggedSurface(M.mesh.SurfaceMesh):
+            """SurfaceMesh with one extra field, as user code would define it."""
+            def __init__(self, data=None):
+                super().__init__(data)
+                self.tag = "user"
+        _USER_CLASS.append(TaggedSurface)
+    return _USER_CLASS[0]
 
 
 def volume(V, C, vrows="list", irows="list"):
